@@ -588,6 +588,11 @@ O("C17.snarf_shift", ["C17"], "h_C09p.c", "h_C17_snarf_shift",
   drop_checks=["--undefined-shift-check"],
   assumptions=["strtol replaced by a stub returning an arbitrary long and stepping over the digits (libc number reading trusted); the text's leading '-' is tied to the value's sign, free for 0",
                "left shift of a negative day count (formally undefined, arithmetic on every supported compiler) not checked"])
+O("C09.gcd12", ["C09", "C01"], "h_C01k.c", "h_C09_gcd12",
+  "gcd12 (MONTHLY;INTERVAL;BYMONTH reachability): for every start month, BYMONTH month and INTERVAL 1..INT_MAX the filler's test '(m + 12 - v) % gcd12(INTERVAL) == 0' holds iff v is reached from m in steps of INTERVAL months - an unreachable month ends the stream, a reachable one is never refused",
+  ["gcd12"], unwind=14, solver=["minisat", "kissat", "cadical"], timeout={"quick": 600, "thorough": 1800},
+  native_srcs=[x for x in LIBECHSE if x != "evrrul.c"], native_libs=["-lltdl", "-lm"],
+  assumptions=["the test expression is quoted from rrul_fill_mly (one line); the filler's main loop itself is not under contract"])
 O("C09.make_enum", ["C09"], "h_C09e.c", "h_C09_make_enum",
   "make_enum (the time-of-day arrays every filler indexes): for every BYHOUR within 0..23, BYMINUTE within 0..59, BYSECOND within 0..60 and every DTSTART time it writes inside its three arrays, yields 1..24 / 1..60 / 1..61 entries, each a member of its BYxxx set (DTSTART's value when the set is empty), strictly increasing; the loops terminate",
   ["make_enum"], dfcc=True, loop_contracts=True, replace=["bui31_next", "bui63_next"],
